@@ -122,7 +122,9 @@ def gen_scenario(seed, i):
     g = DataGen(rng.fork("wf"))
     w = g.workflow("m1")
     two = rng.chance(1, 3)
-    ops = [["deploy", 0], ["start", "m1", {"pid": "p1"}]]
+    # start values for some names (declared with another default by the model, or not declared at all)
+    sv = {nm: 500 + j for j, nm in enumerate(NAMES) if rng.chance(1, 3)}
+    ops = [["deploy", 0], ["start", "m1", dict({"pid": "p1"}, **sv)]]
     if two:
         ops.append(["start", "m1", {"pid": "p2", "n1": 777}])
     val = 100
@@ -135,7 +137,7 @@ def gen_scenario(seed, i):
         opts["extra"] = mark
         if rng.chance(1, 4):
             opts["__secret"] = mark
-        ops.append(["act", "next", pid, {"open": rng.below(3)}, opts])
+        ops.append(["act", rng.weighted([("next", 15), ("skip", 2), ("submit", 2)]), pid, {"open": rng.below(3)}, opts])
     ops.append(["runall"])
     return {"id": f"c07-{seed}-{i}", "config": {"keep": True, "dump_each": True}, "models": [w], "ops": ops, "exprs": g.exprs, "two": two}
 
@@ -200,6 +202,16 @@ def run(ctx):
             if obs is None:
                 break
             dumps = {o["pid"]: o for o in obs if o.get("k") == "dump" and not o.get("absent")}
+            # (0) a value given at start is the value of that name in the root scope, whatever default the model declares:
+            #     read off the inputs the root reports when it is created (before any act can write)
+            for o in obs:
+                if o.get("k") == "gen" and o.get("type") == "workflow" and o.get("state") == "created":
+                    sop = next((x for x in sc["ops"] if x[0] == "start" and x[2].get("pid") == o["pid"]), None)
+                    if sop:
+                        for k, v in sop[2].items():
+                            if k != "pid" and (o.get("inputs") or {}).get(k) != v:
+                                bad = ("start-value-lost", f"op {i}: {o['pid']} was started with {k}={v} but its root scope starts with {(o.get('inputs') or {}).get(k)}")
+                        stats["start_values"] = stats.get("start_values", 0) + len(sop[2]) - 1
             if op[0] == "act" and any(o.get("k") == "res" and o.get("ok") for o in obs):
                 pid = op[2]
                 tgt = [o for o in obs if o.get("k") == "target"][0]["tid"]
